@@ -104,6 +104,12 @@ def norm_text(canon, kind):
 def run(chk):
     rng = chk.rng
     cases, want, metas = [], [], []
+    # names of the Go fields that lie inside the struct-typed fields of each probe type (the embedded Paragraph's Values and
+    # Order among them), from the compiled types: as keys of UNKNOWN fields they must pass through like any other
+    nested = {}
+    for tname, r in zip(PROBES, chk.run_impl([("tfieldnames", [t.encode()]) for t in PROBES])):
+        nested[tname] = [bytes.fromhex(h[1:]) for h in r.strip("[] ").split()]
+    chk.extra["nested_field_names"] = {k: [x.decode() for x in v] for k, v in nested.items()}
     for tname, fields in PROBES.items():
         for _ in range(chk.n(1200, 24000)):
             found = []
@@ -113,6 +119,7 @@ def run(chk):
                 # the struct all the same and must pass through without touching any typed field
                 pool = [b"X-Unknown", b"Zeta", b"Another-Field", b"X-B", b"Epoch", b"Revision", b"Native", b"Relations", b"ABI", b"OS", b"CPU",
                         b"Possibilities", b"Algorithm", b"Hash", b"Filename"]
+                pool += [x for x in nested.get(tname, []) if x not in pool and x not in {f[1].encode() for f in fields}]
                 # ... and like fields that OTHER struct types of the program know (and may have omitted a moment ago): to this
                 # struct they are unknown fields like any other
                 own = {f[1].encode() for f in fields}
